@@ -27,7 +27,10 @@ Lines == << <<120, 32, 61, 32, 50>>,      \* `x = 2`
            <<120, 32, 61, 32, 115, 105, 110, 40, 48, 46, 53, 41>>,      \* `x = sin(0.5)`
            <<115, 105, 110, 40, 120, 41>>,      \* `sin(x)`
            <<121, 32, 61, 32, 121>>,      \* `y = y`
-           <<120, 43>> >>      \* `x+`
+           <<120, 43>>,      \* `x+`
+           <<120, 61>>,      \* `x=`
+           <<61>>,      \* `=`
+           <<120, 32, 61, 61>> >>      \* `x ==`
 Init == store = <<>> /\ hist = <<>>
 Next == Len(hist) < MaxLines /\ \E q \in 1..Len(Lines) :
           /\ store' = LineEffect(T, store, Lines[q]).store
